@@ -299,18 +299,20 @@ def get_plan(pid):
         plan.own = lambda name: "_build_markers#" in name or "C03." in name or (name.startswith("dep_logic.markers.single:MarkerExpression._evaluate#") and "bridge.B2" not in name)
         return plan
     if pid == "C18":
-        plan = JobsPlan("C18", [("C18.wheel", "wheel_tags", {})], rtc=["wheel_names"], level="other",
+        plan = JobsPlan("C18", [("C18.wheel", "wheel_tags", {}), ("C18.platform", "platform_parse", {})], rtc=["wheel_names"], level="other",
                         replay=lambda name, rec: ({"suite": "wheel_names", "arg": {"filename": rec["model"]["filename"]}} if (rec.get("model") or {}).get("filename") else None),
                         technique="contract on parse_wheel_tags over file names modelled as the '-'-join of dash-free fields (T-WHEEL): returns the '.'-splits of the lower-cased last three fields "
-                                  "(extension removed) exactly when the name ends in '.whl' and has 5 or 6 fields, raises only InvalidWheelFilename otherwise; z3 (strings + arrays); comparison with "
-                                  "packaging.utils.parse_wheel_filename over the PEP 427 grammar and Platform.parse / choices() / str round trip as bounded part",
+                                  "(extension removed) exactly when the name ends in '.whl' and has 5 or 6 fields, raises only InvalidWheelFilename otherwise; contract on Platform.parse / __str__ for every name of the real Platform.choices() "
+                                  "with X_Y any two integers (T-TAG terms): documented target, parse(str(p)) == p; z3; comparison with packaging.utils.parse_wheel_filename over the PEP 427 grammar "
+                                  "and a platform-name sweep as bounded part",
                         trusted_base=["A-ENGINE", "A-STDLIB: endswith / [:-4] / count('-') / lower() / split('-') on a '-'-join of dash-free fields (pyvc/theories/wheel.py); lower() and split('.') "
-                                      "of a field uninterpreted", "A-PKG: packaging's parse_wheel_filename reads the same three fields (checked by the bounded part)", "A-TERM"],
-                        assumptions=["Platform.parse / Arch.parse / __str__ (regular expressions, enum tables) are bounded only: every Platform.choices() name with X_Y over a version grid parses, aliases resolve, "
-                                     "str() round-trips"],
+                                      "of a field uninterpreted", "A-PKG: packaging's parse_wheel_filename reads the same three fields (checked by the bounded part)",
+                                      "A-REGEX: the group structure of _platform_major_minor_re on a template instance does not depend on the digits in the holes (two samples run through the real re must agree)",
+                                      "A-STRFMT: a platform string with integer holes is determined by its template and integers", "the table of documented alias targets in contracts/platform_parse.py", "A-TERM"],
+                        assumptions=["platform strings outside Platform.choices() (the BSD / generic families, Platform.current()) are not part of the claim"],
                         explanation="proof part: which fields of the file name become the python / abi / platform tag lists, and the accept / reject decision, for all names; bounded part: agreement with "
                                     "packaging on the PEP 427 grammar, wheel_compatibility() not raising, platform names")
-        plan.own = lambda name: "parse_wheel_tags#" in name
+        plan.own = lambda name: "parse_wheel_tags#" in name or "Platform.parse#" in name
         return plan
     if pid == "C17":
         plan = JobsPlan("C17", [("C17.parse", "spec_parse", {}), ("C17.fold", "spec_fold", {})], rtc=["spec_text"], level="other",
